@@ -61,6 +61,21 @@ CLAIMED["C06"] = sync_entry("at the return of ABT_xstream_join/free every unit s
                             "ended and the stream is TERMINATED; ABT_finalize runs what is left; blocked-unit "
                             "counter never negative", "DESIGN.md section 5 (C06)")
 
+CLAIMED["C11"] = sync_entry("(a) differential: observed order of (unit, op) events, popped units and sampled states "
+                            "of generated single-stream chains of directed switches must equal a reference "
+                            "interpreter of the documented semantics; (b) resume race: a suspended ULT never "
+                            "runs again before a resume was issued, k resumes give k returns",
+                            "DESIGN.md section 5 (C11)")
+CLAIMED["C12"] = sync_entry("sampled ABT_thread_get_state values checked against the life-cycle automaton "
+                            "(TERMINATED only after end/exit/cancel and absorbing until revive, a running unit "
+                            "sees itself RUNNING), no op after exit, a cancelled unit does not survive a "
+                            "scheduling point begun after the cancel returned, exactly one start per revive",
+                            "DESIGN.md section 5 (C12)")
+CLAIMED["C13"] = sync_entry("documented rejection codes; after an accepted request has returned the unit's next "
+                            "slice reports a pool that can be in force under the interval order of the request "
+                            "calls; callback count bounds; exactly-once execution",
+                            "DESIGN.md section 5 (C13)")
+
 NOT_BUILT = "check not built yet in this session (see DESIGN.md section 10 for the build order)"
 
 
